@@ -203,7 +203,9 @@ pub fn expected(root: &Path, p: &CProj) -> Result<Expected, String> {
         let mapper: Vec<usize> = (0..n_all).map(|k| if k < n_schema { k } else if let Ok(nth) = from.binary_search(&k) { n_schema + nth } else { usize::MAX }).collect();
         let mut w = SourceWriter::new();
         w.set_file_index_mapper(mapper);
-        print_types_for_operation_document(o, &sch, opdoc, &mut w);
+        // every document is printed on a thread of its own: whatever the printers keep per thread cannot carry over
+        // from one document to the next, so these are the bytes the document gets alone
+        crate::util::on_fresh_thread(|| print_types_for_operation_document(o, &sch, opdoc, &mut w));
         let mut sources = schema_sources.clone();
         for k in &from {
             sources.push(op_inputs[*k - n_schema].0.as_path());
